@@ -360,6 +360,21 @@ def gen_decode_families(g, tier, verb="dec", ctxs=None, proc_buf=None):
                 emit(refix(q), "sweep%d" % pos)
                 if v % (stride * 8) == 0:
                     emit(q, "sweep%d-stale" % pos)
+    # every value of every data byte of the fixed-length requests and responses
+    for cmd, n in sorted(REQ_FIXED.items()):
+        base = forge(0x23, 0x34, 0x23, 0x34, 0, ctrl_req(cmd, g.rbytes(n)))
+        for k in range(n):
+            for v in range(256):
+                q = list(base)
+                q[11 + k] = v
+                emit(refix(q), "data-sweep:req%02x" % cmd)
+    for cmd, n in ((1, 3), (4, 5), (3, 16)):
+        base = forge(0x23, 0x34, 0x23, 0x34, 0, ctrl_resp(cmd, 0, g.rbytes(n)))
+        for k in (0, n - 1):
+            for v in range(0, 256, stride):
+                q = list(base)
+                q[12 + k] = v
+                emit(refix(q), "data-sweep:resp%02x" % cmd)
     # every value of the two header-validation bytes on minimal-length packets (10..15 bytes)
     for n in range(0, 6):
         base = forge(0x23, 0x34, 0x23, 0x34, 0x05, g.rbytes(n))
